@@ -3,7 +3,7 @@
 DUT: the real luna.gateware.usb.usb3.physical.layer.USB3PhysicalLayer (so the real wiring Scrambler -> CTCSkipInserter
 -> PHY tx_data/tx_datak and `scrambler.hold = tx_ctc.sending_skip`), built around a plain PIPEInterface signal
 bundle as PHY.  Two configurations: the real CTCSkipInserter (SKIP_BYTE_LIMIT 354) and a scaled one (a subclass that
-only overrides SKIP_BYTE_LIMIT = 24, substituted for the name the layer instantiates) so that several insertions fit
+only overrides SKIP_BYTE_LIMIT = 26, substituted for the name the layer instantiates) so that several insertions fit
 into a shallow bound.
 
 Oracle = a model of the link partner's receiver: every transmitted word (PHY tx_data/tx_datak, one cycle after the
@@ -35,8 +35,10 @@ ASSUMPTIONS = [
     "every cycle transmits 4 symbols; 'transmitted symbols' counts all of them",
     "the receiver model is the repo's Descrambler (C31 proves it against the LFSR definition); SKP = K28.1 literal",
 ]
-BOUNDS = "scaled limit 24: BMC K=40/60 (quick/thorough), link words / can_send_skp free every cycle; real limit 354: BMC K=186 " \
-         "with can_send_skp pinned to 0 before cycle 170 and free afterwards (first insertion reached), data free"
+BOUNDS = "scaled limit 26: BMC K=40/60 (quick/thorough), link words / can_send_skp free every cycle for the scheduling and " \
+         "substitution assertions; the receiver round trip (two LFSRs in step) with everything free to K=16/20 and with " \
+         "restricted idle schedules to K=40/60; real limit 354: BMC K=186 with can_send_skp pinned to 0 before cycle 170 and " \
+         "free afterwards (first insertion reached), data free"
 OUTSIDE = "cycle 0 after reset (tx_ctc's registered sink.ready is still 0; in the device the PHY is in electrical idle then); " \
           "tx_electrical_idle=1; the link layer's arbiter producing can_send_skp (C39/C41 side); more than one insertion " \
           "with the real constant (needs K>360)"
@@ -183,13 +185,15 @@ class TxCtcHarness(Harness):
             m.d.ss += waited.eq(1)
         with m.Elif(due):
             m.d.ss += waited.eq(0)
+        e_waited = Signal(name="e_waited")
+        m.d.ss += e_waited.eq(waited)
         com_seen = Signal(name="com_seen")
         with m.If((skps != 0) & e_acc & ~is_skp & (e_ctrl[0]) & (e_data[0:8] == 0xBC)):
             m.d.ss += com_seen.eq(1)
         m.d.comb += [
             self.c_intact.eq(e_acc & ~is_skp & good & (skps != 0) & self.scr & (e_ctrl == 0) & (e_data != 0) & (out_data != e_data)),
             self.c_only.eq(e_acc & is_skp & e_can),
-            self.c_due.eq(e_acc & is_skp & waited),
+            self.c_due.eq(e_acc & is_skp & e_waited),
             self.c_early.eq(e_acc & e_can & ~is_skp & (e_owed < 2) & good),
             self.c_two.eq(e_acc & is_skp & (skps == 1)),
             self.c_com.eq(com_seen & e_acc & ~is_skp & good & self.scr & (e_ctrl == 0) & (e_data != 0)),
@@ -215,17 +219,39 @@ class TxCtcHarness(Harness):
 
 def queries(tier):
     quick = tier == "quick"
-    fs = (lambda: TxCtcHarness(limit=24))
+    fs = (lambda: TxCtcHarness(limit=26))
     fr = (lambda: TxCtcHarness())
-    none_before = (lambda t: 0 if t < 170 else None)
-    return [
-        Query("bmc_scaled", fs, 40 if quick else 60, timeout=600,
-              desc="real USB3PhysicalLayer, SKIP_BYTE_LIMIT scaled to 24: link words and can_send_skp free every cycle"),
-        Query("bmc_real354", fr, 186, timeout=600, layer={"can_send_skp": none_before},
+    INTACT = "link_words_intact_after_descrambling"
+    others = ["skp_only_in_place_of_idle", "skp_sent_when_due", "skp_not_ahead_of_schedule", "link_never_stalled",
+              "skip_limit_is_354"]
+    qs = [
+        Query("bmc_scaled", fs, 40 if quick else 60, asserts=others, timeout=600,
+              desc="real USB3PhysicalLayer, SKIP_BYTE_LIMIT scaled to 26 (remainder 2 mod 4 like 354): link words and "
+                   "can_send_skp free every cycle; scheduling / substitution / stall assertions"),
+        Query("bmc_intact_free", fs, 16 if quick else 20, asserts=[INTACT], covers=[], timeout=600,
+              desc="scaled: receiver-model round trip with everything free (first insertion and the words after it)"),
+        Query("bmc_intact_sched3", fs, 40 if quick else 60, asserts=[INTACT], covers=[], timeout=600,
+              layer={"can_send_skp": (lambda t: int(t % 3 == 0))},
+              desc="scaled; layer: idle offered every third cycle (concrete schedule), link words free: round trip over "
+                   "several insertions"),
+        Query("bmc_real354", fr, 186, asserts=others, timeout=600, layer={"can_send_skp": (lambda t: 0 if t < 170 else None)},
               covers=["skp_inserted", "skp_deferred_until_idle"],
-              hints={"*": {"can_send_skp": (lambda t: 0 if t < 180 else None)}},
-              desc="real constant 354; layer: can_send_skp pinned to 0 before cycle 170, free afterwards (first insertion at "
-                   ">= 2*354 symbols = cycle 177); link words free"),
+              hints={"*": {"can_send_skp": (lambda t: int(t >= 181)), "in_ctrl": 0, "in_data": 0x12345678}},
+              desc="real constant 354; layer: can_send_skp pinned to 0 before cycle 170, free afterwards (first insertion "
+                   "when 2*354 symbols were sent = cycle 178); link words free"),
+        Query("bmc_real354_intact", fr, 186, asserts=[INTACT], covers=[], timeout=600,
+              layer={"can_send_skp": (lambda t: int(t >= 179)), "in_ctrl": 0},
+              desc="real constant 354; layer: concrete idle schedule (idle from cycle 179), data words only (no K symbols), "
+                   "data free: round trip across the first real insertion"),
         Query("cosim_scaled", fs, 0, kind="cosim", cosim_cycles=300 if quick else 1500),
         Query("cosim_real354", fr, 0, kind="cosim", cosim_cycles=400 if quick else 1500),
     ]
+    if not quick:
+        qs += [
+            Query("bmc_intact_window", fs, 40, asserts=[INTACT], covers=[], timeout=600,
+                  layer={"can_send_skp": (lambda t: None if 10 <= t < 18 else int(t % 5 == 0))},
+                  desc="scaled; layer: idle free in cycles 10..17, every fifth cycle otherwise"),
+            Query("bmc_intact_noscramble", fs, 40, asserts=[INTACT], covers=[], timeout=600, layer={"enable_scrambling": 0},
+                  desc="scaled; layer: scrambling disabled, everything else free"),
+        ]
+    return qs
